@@ -337,7 +337,10 @@ impl FileServer for FileServerReal
 
 		let filename_path = std::path::PathBuf::from(filename);
 
-		if !filename_path.exists()
+		// Names under the built-in library prefix only refer to
+		// the built-in files, never to the real file system
+		if filename.starts_with(util::STD_PATH_PREFIX) ||
+			!filename_path.exists()
 		{
 			report_error(
 				report,
